@@ -581,6 +581,10 @@ def run_case(case):
                        member=is_member(locus, e) if locus is not None else True)
             if locus is not None and case['dyn'] == 'syn' and st.get('tranche') is not None:
                 check_skipped(upto=(lkey(locus), e, fkey(orig)))
+            elif posted_time is not None and case['dyn'] == 'syn' and st.get('tranche'):
+                # a posted event belongs to the next timestep: whatever is left of the last tranche was passed over, and has to be judged
+                # now, before this handler changes the state
+                check_skipped()
             if cell is not None:
                 i = cell.get('id')
                 if i not in ref:
